@@ -32,6 +32,8 @@ private:
   bool ResolveCstAndPrecheck() const;
   bool PrecheckFor(EntityUID key, EntityUID value) const;
   bool CreatesDependencyLoop() const;
+  bool ClosesLoop(const std::function<SetOfEntities(EntityUID)>& inputsFor) const;
+  [[nodiscard]] SetOfEntities TermInputsAfterEquation(EntityUID uid) const;
 
   bool CheckNonBasicEquations() const;
 
